@@ -3,6 +3,7 @@
 //   prog: pu      - random suspend/resume of single PUs of an elastic pool (one PU is never suspended)
 //         pupool  - adjacent PUs suspended individually, then suspend_direct / resume_direct of the whole pool
 //         yieldpoll - a yield()-polling task on the PU being suspended (flag raised after the suspend call returned)
+//         blocked   - tasks blocked on a latch while a PU of their pool is suspended (latch released after the call returned)
 //         strand  - submitters hinted to worker k held between select_active_pu and the enqueue while k is suspended
 //         race    - suspend of a PU answered by a resume the moment the PU reads `sleeping`, worker held in the
 //                   store(sleeping)/wait window (directed schedule for the lost-notify window)
@@ -21,6 +22,7 @@
 
 #include <pika/execution.hpp>
 #include <pika/init.hpp>
+#include <pika/latch.hpp>
 #include <pika/modules/resource_partitioner.hpp>
 #include <pika/modules/thread_manager.hpp>
 #include <pika/runtime/runtime.hpp>
@@ -658,6 +660,66 @@ static int prog_yieldpoll(rng& r, int size)
     return wait_until(all_done);
 }
 
+// tasks that are BLOCKED (suspended on a latch) belong to the PU that is being suspended; the latch is released only after
+// suspend_processing_unit has returned.  A worker asked to sleep must go to sleep although suspended tasks sit in its
+// thread map (they need no worker until somebody wakes them) - the call has to return; afterwards the remaining PUs run
+// new work, the latch is released, the blocked tasks finish, the PU is resumed.
+static int prog_blocked(rng& r, int size)
+{
+    int keep = int(r.below(std::uint32_t(g_n)));
+    int rc = 0;
+    for (int c = 0; c < 2 + size / 3 && rc == 0; ++c)
+    {
+        int w = int(r.below(std::uint32_t(g_n)));
+        if (w == keep) w = (w + 1) % g_n;
+        int k = 2 + int(r.below(4));
+        auto gate = std::make_shared<pika::latch>(1);
+        auto at = std::make_shared<std::atomic<int>>(0);
+        auto s = ex::with_hint(ex::thread_pool_scheduler{g_wp}, pika::execution::thread_schedule_hint(std::int16_t(w)));
+        for (int i = 0; i < k; ++i)
+        {
+            long id = new_task_id();
+            ex::start_detached(ex::schedule(s) | ex::then([=] {
+                auto& t = (*g_tasks)[id];
+                t.entered.fetch_add(1);
+                at->fetch_add(1);
+                gate->wait();
+                t.finished.fetch_add(1);
+                g_done.fetch_add(1);
+            }));
+        }
+        // all k are inside latch::wait (entered) and no task is active or pending any more: they are suspended
+        rc = wait_until([&] {
+            auto& tm = pika::detail::get_runtime().get_thread_manager();
+            using st = pika::threads::detail::thread_schedule_state;
+            return at->load() == k && g_wp->get_thread_count(st::active, pika::execution::thread_priority::default_, std::size_t(-1), false) == 0 &&
+                g_wp->get_thread_count(st::pending, pika::execution::thread_priority::default_, std::size_t(-1), false) == 0 &&
+                g_wp->get_thread_count(st::staged, pika::execution::thread_priority::default_, std::size_t(-1), false) == 0 && (void(tm), true);
+        });
+        if (rc != 0) break;
+        std::vector<std::thread> os;
+        run_on(0, os, [=] {
+            if (api(op_suspend_pu, w)) monitor("supported suspend_processing_unit failed");
+        });
+        rc = wait_until([&] { return g_ctl_running.load() == 0; });
+        if (rc == 1 || rc == 2)
+            monitor("suspend_processing_unit(" + std::to_string(w) + ") did not return while " + std::to_string(k) +
+                " task(s) of the pool are blocked on a latch that is released only afterwards (a worker asked to sleep waits for suspended tasks)");
+        for (auto& t : os)
+            if (rc == 0) t.join();
+            else t.detach();
+        if (rc != 0) break;
+        for (int i = 0; i < 4; ++i) submit(r.next(), 1);    // the remaining PUs carry on
+        gate->count_down(1);
+        rc = wait_until(all_done);
+        if (rc != 0) break;
+        if (api(op_resume_pu, w)) monitor("resume_processing_unit failed");
+    }
+    if (rc != 0) return rc;
+    if (active() != g_n) monitor("after resuming every PU only " + std::to_string(active()) + " are active");
+    return wait_until(all_done);
+}
+
 // mixed histories: some PUs are suspended individually (also NEIGHBOURING ones), then the whole pool is suspended while they are
 // still asleep, work is submitted to the sleeping pool, the pool is resumed and must be complete again
 static int prog_pupool(rng& r, int size)
@@ -809,6 +871,7 @@ int main(int argc, char** argv)
     else if (prog == "race") rc = prog_race(r, size);
     else if (prog == "strand") rc = prog_strand(r, size);
     else if (prog == "yieldpoll") rc = prog_yieldpoll(r, size);
+    else if (prog == "blocked") rc = prog_blocked(r, size);
     else if (prog == "pupool") rc = prog_pupool(r, size);
     else rc = prog_refuse(r, size, elastic, stealing);
 
